@@ -101,6 +101,11 @@ def check_clause(ctx, rule, fnrec, inst, props, required, desc, why, line=None):
 # =======================================================================================================
 
 def run(ctx):
+    _run_main(ctx)
+    client_fields_parsed_from_their_attributes(ctx)
+
+
+def _run_main(ctx):
     F = ctx.facts
     ctx.explanation = ("K3 with propositional entailment: every granting sink of check_oauth2_authorisation / check_oauth2_authorise_permit lies under client lookup, the "
                        "three-form redirect condition (no weaker disjunct), the PKCE condition, a present non-anonymous identity and the scope check; the values "
@@ -650,3 +655,18 @@ def run_loopback(ctx, F):
                     exp = "false"
                 ctx.check(ok, rule, a["fn"], f"arm:{vn}", exp, f"allow_localhost_redirect: {vn} yields `{ex_s(v)[:60]}`, expected {exp}: loopback redirects are only for public clients "
                           f"that enabled them", file=a["file"], line=v.get("line"))
+
+
+# ---------------------------------------------------------------------------------------------------------------------
+# "Registered terms" are what Oauth2ResourceServersWriteTransaction::reload makes of the stored client: the scope maps and
+# the supplementary scope maps have the same type, as have the three origin lists. Each must come from its own attribute
+# (shared engine rules/lib/x_fields.py).
+
+def client_fields_parsed_from_their_attributes(ctx):
+    from .lib.x_fields import check_field_sources
+    n = check_field_sources(ctx, LIB, "K5-client-fields", [(
+        "kanidmd_lib::idm::oauth2::Oauth2ResourceServersWriteTransaction::<'_>::reload", "kanidmd_lib::idm::oauth2::Oauth2RS", {
+            "scope_maps": {"OAuth2RsScopeMap"}, "sup_scope_maps": {"OAuth2RsSupScopeMap"}, "claim_map": {"OAuth2RsClaimMap"},
+            "origins": {"OAuth2RsOrigin"}, "opaque_origins": {"OAuth2RsOrigin"}, "redirect_uris": {"OAuth2RsOrigin"}})],
+        "authorisation requests are then judged against terms the administrator did not register (e.g. supplementary scopes become requestable)")
+    ctx.floor("K5-client-fields", "client fields traced to their attributes", n, 6)
